@@ -262,7 +262,7 @@ def order_case(args):
             out["failures"].append({"key": "order.shape", "text": "same structure built in another order gives different rows/columns", "props": props, "recipe": recipe, "recipe2": r2}); continue
         for kk in t0:
             if t0[kk] != t2[kk]:
-                d = [(c, a, b) for c, a, b in zip(keep, t0[kk], t2[kk]) if a != b and not (isinstance(a, float) and isinstance(b, float) and oracle.close(a, b, 1e-6, 1e-9))]
+                d = [(c, a, b) for c, a, b in zip(keep, t0[kk], t2[kk]) if a != b and not (isinstance(a, float) and isinstance(b, float) and oracle.close(a, b, EQ_REL, 1e-9))]
                 if d:
                     out["failures"].append({"key": "order.values", "text": "row %s differs between construction orders: %s" % (kk, d[:3]), "props": props, "recipe": recipe, "recipe2": r2}); break
     if idx < 3: out["sample"] = {"system": gen.short(recipe)[:8], "verdict": "3 construction orders compared, %d failures" % len(out["failures"])}
@@ -399,3 +399,243 @@ def rail_family(seed, n):
     return summarize(run_pool(rail_case, [(seed, i) for i in range(n)]),
                      "random systems with rails on a random subset of non-load components (parents addressed by name or by rail), PMux and phases; the rail report is recomputed from the solve() table and the reference model (supply of each component = its selected input); distinct by recipe hash",
                      "trees <= 8 components, 1-3 sources")
+
+
+# ============================================================================================================ C12
+def _frame_key(df, cols_drop=()):
+    if df is None: return None
+    recs = df.to_dict("records")
+    def norm(v, k=None):
+        if k == "Warnings" and isinstance(v, str): return " ".join(sorted(v.replace(",", " ").split()))      # the union of warnings is a set
+        if isinstance(v, float): return round(v, 9)
+        if hasattr(v, "item"):
+            try: return round(float(v), 9)
+            except Exception: return str(v)
+        return v if isinstance(v, (str, int, bool)) or v is None else str(v)
+    return sorted(json.dumps({k: norm(v, k) for k, v in r.items() if k not in cols_drop}, sort_keys=True, default=str) for r in recs)
+
+
+EQ_REL = 5e-5      # two systems with the same structure converge to fixed points that agree within a few solver tolerances
+
+
+def frames_differ(a, b, keys):
+    """compare two report tables row by row (rows matched by `keys`), numbers within EQ_REL, warnings as token sets"""
+    if a is None or b is None: return None if (a is None and b is None) else "one report is None"
+    if list(a.columns) != list(b.columns): return "columns differ: %s vs %s" % (list(a.columns), list(b.columns))
+    ra = {tuple(r[k] for k in keys if k in r): r for r in a.to_dict("records")}; rb = {tuple(r[k] for k in keys if k in r): r for r in b.to_dict("records")}
+    if set(ra) != set(rb): return "rows differ: %s" % sorted(set(ra) ^ set(rb))[:3]
+    for k, r in ra.items():
+        q = rb[k]
+        for c in r:
+            x, y = r[c], q[c]
+            if c == "Warnings":
+                if set(str(x).replace(",", " ").split()) != set(str(y).replace(",", " ").split()): return "row %s: warnings %r vs %r" % (k, x, y)
+            elif isinstance(x, str) or isinstance(y, str) or x is None or y is None or isinstance(x, (list, bool)):
+                if x != y: return "row %s column %s: %r vs %r" % (k, c, x, y)
+            elif not oracle.close(x, y, EQ_REL, 1e-9): return "row %s column %s: %r vs %r" % (k, c, x, y)
+    return None
+
+
+def roundtrip_case(args):
+    import tempfile, os
+    seed, idx = args
+    rnd = _rnd(seed, idx)
+    if idx % 3 == 2:
+        # a system that went through an edit history first (PMux input order after deletions, renames, ...)
+        from . import hist
+        ops = copy.deepcopy(rnd.choice(hist.BASES)); shadow = Model.of({"ops": ops}); s_sh, _ = gen.build({"ops": ops})
+        for i in range(6):
+            op = hist.random_op(rnd, shadow, 200 + i)
+            if op["op"] == "set_comp_phases" and not isinstance(op["conf"], (dict, list)): continue
+            try:
+                gen.apply_op(s_sh, copy.deepcopy(op)); shadow.apply(op); ops.append(op)
+            except Exception:
+                pass
+        recipe = {"ops": ops}
+    else:
+        recipe = gen.random_system(rnd, max_nodes=8, n_sources=(1, 3), p_mux=0.5, p_table=0.4, p_limits=0.6, p_phases=0.5, p_rails=0.4, p_groups=0.4, p_byrail=0.3)
+        # limits with only a lower / only an upper bound, applicable and not
+        for op in recipe["ops"]:
+            if "comp" in op and rnd.random() < 0.3:
+                k = rnd.choice(["vi", "vo", "io", "ii", "pl", "tp", "vd"])
+                op["comp"]["args"].setdefault("limits", {})[k] = rnd.choice([[rnd.choice([0.5, 2.9]), 1e6], [0.0, rnd.choice([0.01, 4.0])], [-20.0, 1e6] if k == "tp" else [0.001, 1e6]])
+    out = {"hash": _hash(recipe), "failures": [], "nontrivial": True, "sample": None, "outcome": None}
+    from sysloss.system import System
+    try:
+        s, _ = gen.build(recipe, strict=False)
+    except Exception as e:
+        out["failures"].append({"key": "gen.build", "text": str(e), "props": [], "fault": True}); return out
+    def F(key, text): out["failures"].append({"key": key, "text": text, "props": ["C12"], "recipe": recipe})
+    fd, p = tempfile.mkstemp(suffix=".json"); os.close(fd)
+    try:
+        try:
+            s.save(p)
+        except Exception as e:
+            F("save.exception", "save() raised %s: %s" % (type(e).__name__, str(e)[:80])); return out
+        try:
+            s2 = System.from_file(p)
+        except Exception as e:
+            F("load.exception", "from_file() raised %s: %s" % (type(e).__name__, str(e)[:80])); return out
+        m = Model.of(recipe, [(i, None) for i in range(len(recipe["ops"]))]) if idx % 3 != 2 else None
+        oc1, d1 = _solve_outcome(s, ta=30.0, energy=True); oc2, d2 = _solve_outcome(s2, ta=30.0, energy=True)
+        out["outcome"] = oc1
+        if oc1 != oc2: F("rt.outcome", "solve(): original %s, reloaded %s" % (oc1, oc2)); return out
+        if oc1 == "table":
+            d = frames_differ(d1, d2, ["Component", "Phase"])
+            if d: F("rt.solve", "solve() differs after the round trip: %s" % d)
+            try:
+                d = frames_differ(s.rail_rep(ta=30.0), s2.rail_rep(ta=30.0), ["Rail", "Phase"] if any(n_ for n_ in s._g.attrs["rails"].values()) else ["Component", "Phase"])
+                if d: F("rt.rail_rep", "rail_rep() differs after the round trip: %s" % d)
+            except Exception as e:
+                F("rt.rail_rep", "rail_rep() raised %s" % type(e).__name__)
+        # params(limits=True): applicable limits only (the statement says 'applicable limits')
+        p1, p2 = s.params(limits=True), s2.params(limits=True)
+        app = {}
+        from contracts import spec as S
+        for r in p1.to_dict("records"):
+            pass
+        def params_key(sys_, df):
+            out_ = []
+            for r in df.to_dict("records"):
+                comp = sys_._g[sys_._g.attrs["nodes"][r["Component"]]]
+                keys = comp._get_limits()
+                rr = {k: v for k, v in r.items() if not (" limit " in k and k.split(" ")[0] not in keys)}
+                out_.append(json.dumps({k: (round(v, 12) if isinstance(v, float) else v) for k, v in rr.items()}, sort_keys=True, default=str))
+            return sorted(out_)
+        if params_key(s, p1) != params_key(s2, p2):
+            a, b = params_key(s, p1), params_key(s2, p2)
+            d = [x for x in a if x not in b][:1] + [x for x in b if x not in a][:1]
+            F("rt.params", "params(limits=True) differs after the round trip: %s" % d)
+        if _frame_key(s.phases()) != _frame_key(s2.phases()): F("rt.phases", "phases() differs after the round trip")
+        # structure: same parents, PMux inputs in the same priority order, groups, rails, phase configuration
+        def struct(sys_):
+            g = sys_._g; par = sys_._get_parents(); o = {}
+            for i in g.node_indices():
+                nm = g[i]._params["name"]
+                o[nm] = ([] if isinstance(par[i], int) or (hasattr(par[i], "shape") and par[i].shape == ()) else [g[j]._params["name"] for j in par[i]], g.attrs["groups"][nm], g.attrs["rails"][nm],
+                         json.dumps(g.attrs["phase_conf"][nm], sort_keys=True), type(g[i]).__name__, json.dumps(g[i]._params, sort_keys=True, default=str))
+            return o, json.dumps(g.attrs["phases"], sort_keys=True)
+        try:
+            if struct(s) != struct(s2):
+                a, b = struct(s)[0], struct(s2)[0]
+                d = [(k, a.get(k), b.get(k)) for k in set(a) | set(b) if a.get(k) != b.get(k)][:2]
+                F("rt.structure", "structure differs after the round trip: %s" % (d,))
+        except Exception as e:
+            F("rt.structure", "structure comparison raised %s" % type(e).__name__)
+        # a file written by a newer version is refused
+        doc = json.load(open(p)); doc["system"]["version"] = "99.0.0"; json.dump(doc, open(p, "w"))
+        try:
+            System.from_file(p); F("rt.version", "a file of version 99.0.0 was accepted")
+        except ValueError:
+            pass
+        except Exception as e:
+            F("rt.version", "a newer file raised %s instead of ValueError" % type(e).__name__)
+    finally:
+        try: os.unlink(p)
+        except OSError: pass
+    if idx < 3: out["sample"] = {"system": gen.short(recipe)[:8], "verdict": "%d failures" % len(out["failures"])}
+    return out
+
+
+def roundtrip_family(seed, n):
+    return summarize(run_pool(roundtrip_case, [(seed, i) for i in range(n)]),
+                     "two thirds random systems (all kinds, scalar/1-D/2-D parameters, limits incl. one-sided ones, groups, rails, phases, PMux), one third systems reached through an edit history; save -> from_file; solve, rail_rep, params(limits=True) (applicable limits), phases, structure compared; newer-version file refused",
+                     "trees <= 8 components, histories of 6 edits")
+
+
+# ============================================================================================================ C11
+def _tbl(key, vals, vi=(3.3, 5.0), io=(0.1, 0.5, 1.0)):
+    return {"vi": list(vi), "io": list(io), key: vals}
+
+
+def ctor_rejections():
+    """(kind, args, why) that must be refused with ValueError"""
+    R = []
+    for e in (0.0, -0.5, 1.0001, 2.0): R.append(("Converter", {"vo": 5.0, "eff": e}, "efficiency %g" % e))
+    for bad in ([[0.8, 0.9, 0.0], [0.8, 0.9, 0.95]], [[0.8, 0.9, 1.2], [0.8, 0.9, 0.95]], [[0.8, -1.25, 0.9], [0.8, 0.9, 0.95]], [[0.8, -0.5, 0.9], [0.8, 0.9, 0.95]]):
+        R.append(("Converter", {"vo": 5.0, "eff": _tbl("eff", bad)}, "tabulated efficiency outside (0,1]: %s" % bad[0]))
+    R.append(("Converter", {"vo": 5.0, "eff": {"vi": [3.3], "io": [0.1, 0.5, 1.0], "eff": [[0.8, 1.5, 0.9]]}}, "1-D efficiency table > 1"))
+    R.append(("Converter", {"vo": 5.0, "eff": {"vi": [3.3], "io": [0.1, 0.5, 1.0], "eff": [[0.8, -1.5, 0.9]]}}, "1-D efficiency table with negative entry of magnitude > 1"))
+    for vd, vo in ((3.0, 2.5), (2.5, 2.5), (-3.0, 2.5), (1.0, -0.5)): R.append(("LinReg", {"vo": vo, "vdrop": vd}, "dropout %g >= |vo| %g" % (vd, vo)))
+    R.append(("RLoad", {"rs": 0.0}, "zero load resistance")); R.append(("RLoad", {"rs": -0.0}, "zero load resistance"))
+    for K, key, extra in (("Converter", "eff", {"vo": 5.0}), ("VLoss", "vdrop", {}), ("LinReg", "ig", {"vo": 5.0}), ("PSwitch", "ig", {}), ("PMux", "ig", {}), ("Rectifier", "vdrop", {}), ("Rectifier", "ig", {})):
+        good = [[0.1, 0.2, 0.3], [0.2, 0.3, 0.4]]
+        R.append((K, dict(extra, **{key: {"vi": [3.3, 5.0], "io": [0.1, 0.5, 1.0]}}), "table without %s" % key))
+        R.append((K, dict(extra, **{key: {"io": [0.1, 0.5, 1.0], key: good}}), "table without vi"))
+        R.append((K, dict(extra, **{key: {"vi": [3.3, 5.0], key: good}}), "table without io"))
+        R.append((K, dict(extra, **{key: _tbl(key, good, io=(0.1, 0.5, 0.5))}), "io not strictly increasing"))
+        R.append((K, dict(extra, **{key: _tbl(key, good, io=(0.5, 0.1, 1.0))}), "io not monotonic"))
+        R.append((K, dict(extra, **{key: _tbl(key, [[0.1, 0.2, 0.3]])}), "rows do not match vi"))
+        R.append((K, dict(extra, **{key: _tbl(key, [[0.1, 0.2], [0.2, 0.3]])}), "columns do not match io"))
+    for K, extra in (("LinReg", {"vo": 5.0}), ("PSwitch", {}), ("PMux", {}), ("Rectifier", {})):
+        R.append((K, dict(extra, ig=_tbl("ig", [[0.1, -0.2, 0.3], [0.2, 0.3, 0.4]])), "negative tabulated ground current"))
+    for K, good in (("Source", {"vo": 5.0}), ("PLoad", {"pwr": 1.0}), ("ILoad", {"ii": 1.0}), ("RLoad", {"rs": 1.0}), ("RLoss", {"rs": 1.0}), ("VLoss", {"vdrop": 1.0}), ("Converter", {"vo": 5.0, "eff": 0.8}),
+                    ("LinReg", {"vo": 5.0}), ("PSwitch", {}), ("PMux", {}), ("Rectifier", {})):
+        for lim in ({"vi": 5.0}, {"vo": [1.0]}, {"ii": [0.0, "x"]}, {"tp": [0, 1, 2]}, {"pl": (0, 1)}):
+            R.append((K, dict(good, limits=lim), "malformed limits %s" % lim))
+    for K in ("PMux", "Rectifier"):
+        R.append((K, {"rs": [0.1, "a"]}, "non-numeric resistance list")); R.append((K, {"rs": [None, 0.1]}, "non-numeric resistance list"))
+    R.append(("Rectifier", {"rs": "0.1"}, "non-numeric resistance"))
+    return R
+
+
+def ctor_case(args):
+    seed, idx = args
+    rnd = _rnd(seed, idx)
+    out = {"hash": "ctor%d" % idx, "failures": [], "nontrivial": True, "sample": None, "outcome": "ctor"}
+    def F(key, text, **kw): out["failures"].append(dict({"key": key, "text": text, "props": ["C11"]}, **kw))
+    R = ctor_rejections()
+    if idx < len(R):
+        K, a, why = R[idx]
+        out["hash"] = _hash([K, a])
+        try:
+            gen.make_comp({"kind": K, "name": "X", "args": a})
+            F("ctor.accepted", "%s(%s) accepted although %s" % (K, {k: ("table" if isinstance(v, dict) and k != "limits" else v) for k, v in a.items()}, why), ctor=[K, a])
+        except ValueError:
+            pass
+        except Exception as e:
+            F("ctor.exctype", "%s rejected (%s) with %s instead of ValueError" % (K, why, type(e).__name__), ctor=[K, a])
+        if idx < 3: out["sample"] = {"constructor": K, "why rejected": why}
+        return out
+    # sign normalisation: a component given with negative signs behaves exactly like its positive twin in a solved system
+    kind = rnd.choice(gen.INNER + gen.LEAF + ["PMux", "Source"])
+    sp = gen.comp_spec(rnd, kind, "X", 1, p_table=0.5, negsign=False)
+    neg = copy.deepcopy(sp)
+    for k, v in neg["args"].items():
+        if k in ("rs", "rt", "pwr", "pwrs", "ii", "iis", "iq", "vdrop", "ig") and isinstance(v, (int, float)) and not isinstance(v, bool) and rnd.random() < 0.7: neg["args"][k] = -v
+        elif isinstance(v, dict) and k in ("vdrop",) and rnd.random() < 0.5: neg["args"][k] = dict(v, **{k: [[-x for x in row] for row in v[k]]})
+        elif isinstance(v, dict) and k in ("ig", "vdrop", "eff") and rnd.random() < 0.5: neg["args"][k] = dict(v, io=[x for x in v["io"]], vi=[-x for x in v["vi"]])
+    if kind == "PMux" and rnd.random() < 0.5: sp["args"]["rs"] = [0.02, 0.05]; neg["args"]["rs"] = [-0.02, 0.05]
+    def mk(spec):
+        ops = [{"op": "system", "comp": {"kind": "Source", "name": "S0", "args": {"vo": 12.0, "rs": 0.02}}}]
+        if kind == "Source": ops = [{"op": "system", "comp": dict(spec, name="S0")}]; tgt = "S0"
+        elif kind == "PMux":
+            ops.append({"op": "add_source", "comp": {"kind": "Source", "name": "S1", "args": {"vo": 0.0}}})
+            ops.append({"op": "add_comp", "parent": ["S1", "S0"], "comp": spec}); tgt = "X"
+        else:
+            ops.append({"op": "add_comp", "parent": "S0", "comp": spec}); tgt = "X"
+        if kind not in gen.LEAF: ops.append({"op": "add_comp", "parent": tgt, "comp": {"kind": "ILoad", "name": "L", "args": {"ii": 0.25, "rt": 4.0}}})
+        return {"ops": ops}
+    out["hash"] = _hash([sp, neg])
+    try:
+        s1, _ = gen.build(mk(sp)); s2, _ = gen.build(mk(neg))
+    except Exception as e:
+        F("ctor.sign.reject", "%s with negative signs %s was rejected: %s" % (kind, neg["args"], e), recipe=mk(neg)); return out
+    o1, d1 = _solve_outcome(s1, ta=30.0); o2, d2 = _solve_outcome(s2, ta=30.0)
+    if o1 != o2: F("ctor.sign.outcome", "%s: positive parameters -> %s, negative-sign parameters -> %s" % (kind, o1, o2), recipe=mk(neg))
+    elif o1 == "table":
+        d = frames_differ(d1, d2, ["Component"])
+        if d: F("ctor.sign.values", "%s given with negative signs %s behaves differently: %s" % (kind, {k: v for k, v in neg["args"].items() if not isinstance(v, dict)}, d), recipe=mk(neg))
+        m = Model.of(mk(neg))
+        for f in oracle.check_table(m, d2, s2, ta=30.0):
+            if set(f["props"]) & {"C11", "C02", "C03"} and f["key"] in ("row.lossrange", "row.eff", "row.polarity", "row.vout", "row.accounting"):
+                F("ctor.physical:" + f["key"], "accepted component shows unphysical behaviour: " + f["text"], recipe=mk(neg))
+    return out
+
+
+def ctor_family(seed, n):
+    nrej = len(ctor_rejections())
+    res = summarize(run_pool(ctor_case, [(seed, i) for i in range(nrej + n)]),
+                    "%d unphysical / malformed constructor calls that must raise ValueError (all 11 kinds: efficiency, dropout, zero load resistance, malformed / mismatched / non-monotonic tables, negative tabulated ig, malformed limits, non-numeric rs lists) + seeded sign-normalisation twins (scalar, list and table forms) compared in a solved probe system" % nrej,
+                    "%d rejections (exhaustive list) + %d random twins" % (nrej, n))
+    return res
